@@ -27,6 +27,8 @@ type monLog struct {
 	init    *[]kv.Obj
 	entries []string // (create O) ...
 	block   chan struct{}
+	early   int // event callbacks made before OnInitialize
+	inits   int // calls of OnInitialize
 }
 
 type tnode struct {
@@ -190,13 +192,21 @@ func (w *treeWorld) attachAs(p *tnode, kind string, ft kv.Term) {
 					l = append(l, kv.Describe(o))
 				}
 				ml.init = &l
+				ml.inits++
 				ml.mu.Unlock()
 			}).
 			OnCreate(func(o metav1.Object) { ml.add("create", o) }).
 			OnUpdate(func(o metav1.Object) { ml.add("update", o) }).
 			OnDelete(func(o metav1.Object) { ml.add("delete", o) }).Create()
 		var m kcache.Monitor
-		m, err = kcache.NewMonitor(p.pub, h)
+		var mp kcache.Publisher = p.pub
+		if w.r.Chance(1, 2) {
+			// a subscription whose accessors are slow: the monitor's goroutine reaches its select late, when
+			// readiness and events may both be waiting already
+			mp = slowPub{p.pub, time.Duration(1+w.r.Intn(12)) * time.Millisecond}
+			w.tr.stats["act:slow-monitor"]++
+		}
+		m, err = kcache.NewMonitor(mp, h)
 		if err == nil {
 			n.done, n.closefn, n.mlog = m.Done(), m.Close, ml
 		}
@@ -218,6 +228,31 @@ func (w *treeWorld) attachAs(p *tnode, kind string, ft kv.Term) {
 		w.tr.line(kv.L("stall", fmt.Sprint(n.id)))
 		w.tr.stats["act:stall"]++
 	}
+}
+
+// slowPub hands the monitor a subscription whose Ready() takes a while the first time it is called.
+type slowPub struct {
+	kcache.Publisher
+	d time.Duration
+}
+
+func (p slowPub) Subscribe() (kcache.Subscription, error) {
+	s, err := p.Publisher.Subscribe()
+	if err != nil {
+		return nil, err
+	}
+	return &slowSub{Subscription: s, d: p.d}, nil
+}
+
+type slowSub struct {
+	kcache.Subscription
+	d    time.Duration
+	once sync.Once
+}
+
+func (s *slowSub) Ready() <-chan struct{} {
+	s.once.Do(func() { time.Sleep(s.d) })
+	return s.Subscription.Ready()
 }
 
 func (w *treeWorld) release(n *tnode) {
@@ -273,6 +308,9 @@ func (w *treeWorld) burst(kinds []string) {
 func (ml *monLog) add(t string, o metav1.Object) {
 	ml.mu.Lock()
 	ml.entries = append(ml.entries, kv.L(t, kv.Describe(o).Sx()))
+	if ml.init == nil {
+		ml.early++
+	}
 	block := ml.block
 	ml.mu.Unlock()
 	if block != nil {
@@ -357,8 +395,9 @@ func (w *treeWorld) observe() {
 			}
 			log := kv.L(n.mlog.entries...)
 			n.mlog.entries = nil
+			early, inits := n.mlog.early, n.mlog.inits
 			n.mlog.mu.Unlock()
-			w.tr.line(kv.L("monobs", fmt.Sprint(n.id), kv.Bool(isClosed(n.done)), init, log))
+			w.tr.line(kv.L("monobs", fmt.Sprint(n.id), kv.Bool(isClosed(n.done)), init, log, fmt.Sprint(early), fmt.Sprint(inits)))
 			continue
 		}
 		evs := "none"
